@@ -140,7 +140,7 @@ func registerRelay(id string, rule string, assume []string, minClasses int) {
 			cfg := relayCfg(id, tier)
 			d := 420 * time.Second // the quick frontiers need 60-120 s on an idle 16-core machine; the deadline leaves room for a loaded one
 			if strings.HasPrefix(tier, "thorough") {
-				d = 25 * time.Minute
+				d = 45 * time.Minute // the deepest searches (C02 with forged updates, C03 with three variants) need 20-30 min on an idle 16-core machine
 			}
 			return bfs.Spec{Name: id, New: func() bfs.System { return relay.New(cfg) }, MaxDepth: cfg.Depth, Deadline: d}
 		},
